@@ -432,6 +432,8 @@ pub fn run_c01(o: &Opts) -> Report {
             }
         }
     }
+    // the order in which the formats are used on a thread must not matter
+    thread_order_stream(&mut cx, &mut rng, false, false);
     let cases = std::mem::take(&mut cx.cases);
     finish(o, "C01", rep, cases)
 }
@@ -472,7 +474,7 @@ pub fn run_c04(o: &Opts) -> Report {
         "C04",
         "malformed stream (token / code-point deletion, duplication, transposition, keyword insertion, truncation at every prefix, unbalanced nesting to depth 64, 400-digit runs, 512-char inputs) x 3 formats x entry points \
          parse / parse_chars / parse_multi / Truth / Budget / Stamp / Punctuation doors: real outcome (Ok value | Err | panic) vs model outcome; \
-         plus a deterministic stream of error paths with long multi-byte payloads: every atom prefix x names of 1..40 chars made of 1-, 2-, 3-, 4-byte characters at every byte offset (rejected interval names, over-long numbers), bare / nested / in batches, and rejected number lists of truth, budget, fixed stamp; on the real code: no panic, error Display works; distinct = distinct (format, entry, input); non-trivial = non-empty input",
+         plus a deterministic stream of error paths with long multi-byte payloads: every atom prefix x names of 1..40 chars made of 1-, 2-, 3-, 4-byte characters at every byte offset (rejected interval names, over-long numbers), bare / nested / in batches, and rejected number lists of truth, budget, fixed stamp, also with characters of every Unicode numeric category (Nd / Nl / No blocks, full-width forms) in the list; compact well-formed texts on fresh threads after each other format (panics only); on the real code: no panic, error Display works; distinct = distinct (format, entry, input); non-trivial = non-empty input",
     );
     let mut rng = Rng::new(o.seed ^ 0xC04);
     let mut cx = Ctx { rep: &mut rep, cases: vec![], lcases: vec![], ldescr: vec![] };
@@ -570,6 +572,8 @@ pub fn run_c04(o: &Opts) -> Report {
         }
         rejected_payload_stream(&mut cx, &fm);
     }
+    // the order in which the formats are used on a thread must not matter
+    thread_order_stream(&mut cx, &mut rng, false, true);
     let cases = std::mem::take(&mut cx.cases);
     finish(o, "C04", rep, cases)
 }
@@ -616,7 +620,9 @@ fn rejected_payload_stream(cx: &mut Ctx, fm: &Fm) {
     if !batch.is_empty() {
         multi_case(cx, fm, &batch, "rejected-atoms-multi");
     }
-    let items = rejected_number_items(e);
+    let mut items = rejected_number_items(e);
+    // characters of every Unicode numeric category inside the number lists
+    items.extend(numeric_char_items(e));
     for (i, (kind, item)) in items.iter().enumerate() {
         let s = item_in_sentence(e, *kind, item);
         whole(cx, fm, &s, "rejected-numbers", "number-payload", true);
@@ -795,8 +801,161 @@ pub fn run_c08(o: &Opts) -> Report {
             }
         }
     }
+    // the order in which the formats are used on a thread must not matter
+    thread_order_stream(&mut cx, &mut rng, false, false);
     let cases = std::mem::take(&mut cx.cases);
     finish(o, "C08", rep, cases)
+}
+
+// -------------------------------------------------------------------------------------------
+// order of formats on a thread (C01 C04 C08 C09)
+// -------------------------------------------------------------------------------------------
+/// compact well-formed values of a format: every plain copula between atoms, variables / operator as subject and
+/// predicate, compounds, a sentence and a task with all items -- as (text, canonical value) in three spacings:
+/// dense (atom subjects TOUCH the copula), canonical, random
+fn thread_order_texts(fm: &Fm, rng: &mut Rng) -> Vec<(String, String)> {
+    let (a, b, c) = if fm.idx == 2 { ("甲", "乙", "丙") } else { ("robin", "bird", "c") };
+    let w = Term::new_word;
+    let mut terms: Vec<Term> = vec![
+        Term::new_inheritance(w(a), w(b)),
+        Term::new_similarity(w(a), w(b)),
+        Term::new_implication(w(a), w(b)),
+        Term::new_equivalence(w(a), w(b)),
+        Term::new_implication_predictive(w(a), w(b)),
+        Term::new_implication_concurrent(w(a), w(b)),
+        Term::new_implication_retrospective(w(a), w(b)),
+        Term::new_equivalence_predictive(w(a), w(b)),
+        Term::new_equivalence_concurrent(w(a), w(b)),
+        Term::new_inheritance(Term::new_variable_independent(a), Term::new_variable_dependent(b)),
+        Term::new_similarity(Term::new_variable_query(a), Term::new_operator(b)),
+        Term::new_product(vec![w(a), w(b)]),
+        Term::new_inheritance(Term::new_product(vec![w(a), w(b)]), w(c)),
+        Term::new_conjunction(vec![Term::new_inheritance(w(a), w(b)), Term::new_similarity(w(b), w(c))]),
+        Term::new_inheritance(Term::new_set_extension(vec![w(a)]), Term::new_set_intension(vec![w(b)])),
+        Term::new_implication(Term::new_inheritance(w(a), w(b)), Term::new_inheritance(w(a), w(c))),
+        w(a),
+    ];
+    let g = term_gen_for(fm, 2, 3);
+    for _ in 0..3 {
+        terms.push(Term::new_inheritance(g.atom(rng), g.atom(rng)));
+    }
+    let stmt = Term::new_inheritance(w(a), w(b));
+    let mut vals: Vec<Narsese> = terms.into_iter().map(Narsese::Term).collect();
+    vals.push(Narsese::Sentence(Sentence::Judgement(stmt.clone(), Truth::Double(1.0, 0.9), Stamp::Present)));
+    vals.push(Narsese::Sentence(Sentence::Question(stmt.clone(), Stamp::Eternal)));
+    vals.push(Narsese::Sentence(Sentence::Goal(stmt.clone(), Truth::Single(0.5), Stamp::Fixed(-5))));
+    vals.push(Narsese::Task(Task::new(Sentence::Judgement(stmt, Truth::Double(1.0, 0.9), Stamp::Eternal), Budget::Triple(0.5, 0.75, 0.4))));
+    let mut out = vec![];
+    for v in vals {
+        let text = fm.e.format_narsese(&v);
+        if c01_known(fm.e, &v, &text).is_some() || risky_names(fm.e, v.get_term()) || respace_known(fm, &v) {
+            continue;
+        }
+        let toks = narsese_tokens(fm.e, &v, Sugar::None, rng);
+        if toks.canonical() != text {
+            continue;
+        }
+        let want = canon_narsese(&v);
+        let mut seen: Vec<String> = vec![];
+        for policy in [0usize, 1, 2] {
+            let s = toks.join(policy, rng, fm.e.space.parse);
+            if !seen.contains(&s) {
+                out.push((s.clone(), want.clone()));
+                seen.push(s);
+            }
+        }
+    }
+    out
+}
+
+/// On a FRESH thread: parse `prime` (enum and lexical parser), then evaluate `eval` with the enum parser and with
+/// lexical parse + fold.  None when the thread itself died.
+fn on_fresh_thread(prime: Vec<(usize, String)>, eval: Vec<(usize, String)>) -> Option<Vec<(String, String)>> {
+    std::thread::Builder::new()
+        .stack_size(64 << 20)
+        .spawn(move || {
+            let fms = formats();
+            for (i, s) in &prime {
+                let _ = real_parse(fms[*i].e, s);
+                let _ = real_lexfold(&fms[*i], s);
+            }
+            eval.iter().map(|(i, s)| (canon_pr(&real_parse(fms[*i].e, s)), canon_pr(&real_lexfold(&fms[*i], s)))).collect()
+        })
+        .ok()?
+        .join()
+        .ok()
+}
+
+/// The result of parsing must not depend on WHICH FORMAT (or which other inputs) the thread has parsed before: per-thread
+/// or per-process memoisation keyed by too little shows only when the formats are used in another order than the
+/// harness's fixed ascii, latex, han on its one thread.  For every ordered pair (F1, F2) a fresh thread parses a few F1
+/// inputs and then the compact F2 texts (`thread_order_texts`); one more fresh thread parses the texts of all three
+/// formats interleaved in random order.  Each result must be the value the text was printed from (which the main thread
+/// and, with `model`, the model give as well).  `panic_only`: report only panics (C04's property).
+fn thread_order_stream(cx: &mut Ctx, rng: &mut Rng, model: bool, panic_only: bool) {
+    let fms = formats();
+    let texts: Vec<Vec<(String, String)>> = fms.iter().map(|fm| thread_order_texts(fm, rng)).collect();
+    let check = |cx: &mut Ctx, fi: usize, s: &str, want: &str, got: &(String, String), history: &str| {
+        cx.rep.evaluations += 2;
+        for (which, g) in [("enum parser", &got.0), ("lexical parse + fold", &got.1)] {
+            cx.rep.hist.add(format!("thread-order:{}:{}", fms[fi].name, if g == want { "same" } else { "differs" }));
+            if g != want && (!panic_only || g == "PANIC") {
+                cx.fail(
+                    "thread-order",
+                    &format!("the result depends on what the thread parsed before ({}): {}", which, history),
+                    format!("[{}] {:?}", fms[fi].name, s),
+                    want.to_string(),
+                    g.clone(),
+                    None,
+                );
+            }
+        }
+    };
+    // main thread (and the model)
+    for (fi, ts) in texts.iter().enumerate() {
+        for (s, want) in ts {
+            let r = if model { cx.parse_case(&fms[fi], s) } else { real_parse(fms[fi].e, s) };
+            let lf = real_lexfold(&fms[fi], s);
+            check(cx, fi, s, want, &(canon_pr(&r), canon_pr(&lf)), "main thread");
+        }
+    }
+    for f1 in 0..3 {
+        for f2 in 0..3 {
+            // an atom, a spaced statement, a dense one, a sentence / task of F1 first
+            let n1 = texts[f1].len();
+            let prime: Vec<(usize, String)> = [n1.saturating_sub(8), 1, 0, n1.saturating_sub(1)].iter().filter_map(|&k| texts[f1].get(k)).map(|(s, _)| (f1, s.clone())).collect();
+            let eval: Vec<(usize, String)> = texts[f2].iter().map(|(s, _)| (f2, s.clone())).collect();
+            let history = format!("fresh thread, {} inputs first (e.g. {:?})", fms[f1].name, prime.first().map(|p| p.1.clone()).unwrap_or_default());
+            match on_fresh_thread(prime, eval) {
+                Some(got) => {
+                    for ((s, want), g) in texts[f2].iter().zip(got.iter()) {
+                        check(cx, f2, s, want, g, &history);
+                    }
+                }
+                None => cx.fail("thread-order", "the parsing thread died", history, "results".into(), "PANIC".into(), None),
+            }
+        }
+    }
+    // interleaved: all formats' texts in random order on one fresh thread, twice (starting with a latex / han text)
+    for first in [1usize, 2] {
+        let mut all: Vec<(usize, String, String)> = texts.iter().enumerate().flat_map(|(fi, ts)| ts.iter().map(move |(s, w)| (fi, s.clone(), w.clone()))).collect();
+        for i in (1..all.len()).rev() {
+            let j = rng.below(i + 1);
+            all.swap(i, j);
+        }
+        if let Some(k) = all.iter().position(|x| x.0 == first) {
+            all.swap(0, k);
+        }
+        let history = format!("fresh thread, inputs of all formats interleaved, first {:?}", all[0].1);
+        match on_fresh_thread(vec![], all.iter().map(|x| (x.0, x.1.clone())).collect()) {
+            Some(got) => {
+                for ((fi, s, want), g) in all.iter().zip(got.iter()) {
+                    check(cx, *fi, s, want, g, &history);
+                }
+            }
+            None => cx.fail("thread-order", "the parsing thread died", history, "results".into(), "PANIC".into(), None),
+        }
+    }
 }
 
 // -------------------------------------------------------------------------------------------
@@ -939,6 +1098,8 @@ pub fn run_c09(o: &Opts) -> Report {
             }
         }
     }
+    // the order in which the formats are used on a thread must not matter (main-thread results also against the model)
+    thread_order_stream(&mut cx, &mut rng, true, false);
     let cases = std::mem::take(&mut cx.cases);
     // lexical half: every White_Space character in pure-ASCII and in non-ASCII texts, real lexical parser vs its model
     // (a second shard set, Run/LexRun.v) and parse / parse + fold invariance on the real code
